@@ -1,3 +1,4 @@
+import os
 from vlib.runner import Ob
 
 # ---------------------------------------------------------------------------------------------
@@ -107,6 +108,56 @@ def pfc_grid(tier):
     return pts
 
 
+def pfc_hamming_grid(tier):
+    """places and bit error masks of the one damaged Hamming 8/4 byte (python twin of the DMG_* macros of h_c15_pfc.c)"""
+    A = dict(NPAGES=3, PPP=2, NB=4, SZ0=5, SZ1=40, SZ2=3, PAD2=80, SZ3=6, PAD3=50)      # blocks 0,1 on page 0 (1 spans 2 packets), 2 on page 1, 3 on page 2
+    B = dict(NPAGES=2, PPP=2, NB=3, SZ0=5, PAD1=26, SZ1=9, PAD2=30, SZ2=3, MAG=0, STREAM=12, CI0=15)   # structure header of block 1 split 2+2; block 2 on page 1
+    for lay in (A, B):
+        assert pfc_layout(lay) is not None
+    q = [dict(DMG_KIND=1, DMG_F=3, DMG_BYTE=4, DMG_MASK=0x21, **A),     # page 1 header, S1 (low byte pair of the sub-code)
+         dict(DMG_KIND=1, DMG_F=0, DMG_BYTE=5, DMG_MASK=0x82, **A),     # page 0 header, S2/C4
+         dict(DMG_KIND=1, DMG_F=3, DMG_BYTE=7, DMG_MASK=0x14, **A),     # S4/C5/C6 (high pair)
+         dict(DMG_KIND=1, DMG_F=3, DMG_BYTE=2, DMG_MASK=0x48, **A),     # page number units
+         dict(DMG_KIND=1, DMG_F=2, DMG_BYTE=2, DMG_MASK=0x03, **A),     # block pointer of packet 2 of page 0
+         dict(DMG_KIND=2, DMG_BLK=1, DMG_NIB=0, DMG_MASK=0x50, **A),    # structure header, low pair
+         dict(DMG_KIND=2, DMG_BLK=1, DMG_NIB=3, DMG_MASK=0x0A, **A),    # structure header, high pair
+         dict(DMG_KIND=2, DMG_BLK=1, DMG_NIB=1, DMG_MASK=0x84, **B),    # split structure header, first half
+         dict(DMG_KIND=3, DMG_BLK=1, DMG_MASK=0x11, **A),               # separator found by the filler scan
+         dict(DMG_KIND=1, DMG_F=3, DMG_BYTE=4, DMG_MASK=0x08, **A),     # single errors: corrected, nothing changes
+         dict(DMG_KIND=2, DMG_BLK=1, DMG_NIB=2, DMG_MASK=0x40, **A)]
+    if tier != "thorough":
+        return q
+    t = list(q)
+    two = [0x03, 0x05, 0x21, 0x82, 0x14, 0x48, 0x50, 0x0A, 0x84, 0x11, 0x60, 0xC0, 0x09, 0x90, 0x28, 0x41]
+    n = [0]
+
+    def m():
+        n[0] += 1
+        return two[n[0] % len(two)]
+    for f in (0, 3):
+        for by in range(0, 8):
+            t.append(dict(DMG_KIND=1, DMG_F=f, DMG_BYTE=by, DMG_MASK=m(), **A))
+    for by in range(0, 3):
+        t.append(dict(DMG_KIND=1, DMG_F=1, DMG_BYTE=by, DMG_MASK=m(), **A))
+        t.append(dict(DMG_KIND=1, DMG_F=5, DMG_BYTE=by, DMG_MASK=m(), **A))
+    for k in range(4):
+        t.append(dict(DMG_KIND=2, DMG_BLK=1, DMG_NIB=k, DMG_MASK=m(), **A))
+        t.append(dict(DMG_KIND=2, DMG_BLK=1, DMG_NIB=k, DMG_MASK=m(), **B))
+        t.append(dict(DMG_KIND=2, DMG_BLK=2, DMG_NIB=k, DMG_MASK=m(), **A))
+    for b in (0, 2, 3):
+        t.append(dict(DMG_KIND=3, DMG_BLK=b, DMG_MASK=m(), **A))           # separators found through the block pointer
+    t.append(dict(DMG_KIND=3, DMG_BLK=1, DMG_MASK=m(), **B))
+    for bit in range(8):                                                    # every single bit error on S1 of a header and on a structure header nibble
+        t.append(dict(DMG_KIND=1, DMG_F=3, DMG_BYTE=4, DMG_MASK=1 << bit, **A))
+        t.append(dict(DMG_KIND=2, DMG_BLK=1, DMG_NIB=0, DMG_MASK=1 << bit, **A))
+    seen, out = set(), []
+    for g in t:
+        k = tuple(sorted(g.items()))
+        if k not in seen:
+            seen.add(k); out.append(g)
+    return out
+
+
 def obligations(tier, seed):
     U = ["src/hamm.c"]
     idl = dict(harness="h_c15.c", units=U, vin_size=512, unwind=43,
@@ -205,6 +256,37 @@ def obligations(tier, seed):
            outside="block sizes > 128 in SEQ (2047 limit: pfc_step only); blocks after the gap on the SAME page are also discarded by this demux (waits for the next page header) - "
                    "accepted as 'damaged block discarded, delivery resumes'; loss of the last packet of a page while a block is in progress (defect, pfc_last_packet_loss)",
            grid=pfc_grid("thorough"), quick_grid=pfc_grid("quick"), reach=["end", "some"], timeout=600, mem_gb=3, **pfc_seq),
+        Ob("pfc_hamming", func="h_pfc_seq", desc="pfc_seq with ONE Hamming 8/4 protected byte hit by a double bit error (undecodable) or a single bit error (corrected): "
+           "a byte of a page header (address, page number, S1..S4) or of a data packet (address, block pointer), a nibble of a structure header, a block "
+           "separator (place and error mask on the grid).  Undecodable: exactly the feed() call that meets the byte returns FALSE (documented), the block hit / every block touching the "
+           "packet hit is never delivered, blocks completed before are delivered, delivery resumes byte exact with the first block starting on the next page; corrected: everything as "
+           "without the error",
+           encodes=["vbi_pfc_demux_feed", "_vbi_pfc_demux_decode", "vbi_pfc_demux_reset", "vbi_unham8", "vbi_unham16p"], defines={},
+           assumes=["as pfc_seq; one damaged byte per run; the error mask is a grid constant like everything else that steers the demux (behaviour depends on the byte only through "
+                    "vbi_unham8, whose table C03 decides for all 256 values)"],
+           bounds="two layouts (4 blocks on 3 pages; structure header split 2+2 across packets); quick 9 places + 2 single errors, thorough ~60: every header byte 2..7 of two pages, address and block pointer "
+                  "of a data packet, all 4 structure header nibbles, separators found through the block pointer and by the filler scan",
+           outside="two or more damaged bytes; damaged filler bytes (skipped unread before the block pointer target); parity of block bytes (PFC block bytes are not protected)",
+           grid=pfc_hamming_grid("thorough"), quick_grid=pfc_hamming_grid("quick"), reach=["end"], flags=pfc_seq["flags"] + NOSHL, timeout=600, mem_gb=3,
+           **{k: v for k, v in pfc_seq.items() if k != "flags"}),
+        Ob("pfc_foreign_header", func="h_pfc_seq", desc="pfc_seq with the header of another page of the same magazine fed before every page header of ours but the first (serial "
+           "mode: other pages lie between two transmissions of our page; sub-code, control bits and text of the foreign header symbolic): nothing changes, every block delivered",
+           encodes=["vbi_pfc_demux_feed", "_vbi_pfc_demux_decode"], defines={},
+           grid=[dict(NB=3, SZ0=5, SZ1=40, SZ2=3, UNREL=0, FOREIGN_HDR=1), dict(NPAGES=2, PPP=2, NB=2, SZ0=90, SZ1=4, PAD0=3, MAG=0, PG=0x1C, STREAM=0, CI0=15, FOREIGN_HDR=1)],
+           bounds="2 layouts, no loss", reach=["end", "some"], timeout=600, mem_gb=3, **pfc_seq),
+    ] + ([
+        # CANDIDATES (only with VERIF_CANDIDATES=1): refute the unchanged tree, see the report of the seed evaluation (TODO-defect-candidates.md item 4)
+        Ob("pfc_last_packet_loss_foreign_header", func="h_pfc_seq", desc="pfc_last_packet_loss with the header of another page of the same magazine between the two pages: "
+           "the foreign header clears n_packets (pfc_demux.c:238), the test `dx->packet <= dx->n_packets' of the next header of ours can no longer see that packet 2 never "
+           "came, the 40 byte block is completed with bytes of the next page and delivered",
+           encodes=["vbi_pfc_demux_feed"], defines={}, grid=[dict(NB=3, SZ0=5, SZ1=40, SZ2=3, DROP=2, UNREL=0, FOREIGN_HDR=1)],
+           bounds="1 layout", reach=["end"], timeout=900, mem_gb=6, **pfc_seq),
+        Ob("pfc_parallel_magazine_header", func="h_pfc_seq", desc="pfc_seq with the page header of ANOTHER magazine fed right after each page header of ours (parallel magazine "
+           "transmission): the demux clears n_packets on any header that is not ours and then ignores the packets of our page without a reset; a block in progress is "
+           "continued on the next page",
+           encodes=["vbi_pfc_demux_feed"], defines={}, grid=[dict(NB=3, SZ0=5, SZ1=40, SZ2=3, UNREL=0, FOREIGN_HDR=2)],
+           bounds="1 layout", reach=["end"], timeout=900, mem_gb=6, **pfc_seq),
+    ] if os.environ.get("VERIF_CANDIDATES") else []) + [
         Ob("pfc_last_packet_loss", func="h_pfc_seq", desc="pfc_seq with the LAST packet of page 1 lost while a 40 byte block is in progress: refuted - the next page header "
            "(CI continuous) does not notice that packet 2 never came, the block is completed with bytes of the next page and delivered corrupted",
            encodes=["vbi_pfc_demux_feed", "_vbi_pfc_demux_decode"], grid=[dict(NB=3, SZ0=5, SZ1=40, SZ2=3, DROP=2, UNREL=0)],
